@@ -60,7 +60,7 @@ var c07Templates = []c07tmpl{
 	{"with", "S with 424242", ""}, {"without", "S without (S orderby .)(0)", ""},
 	{"where", `S where \x (x count) % 2 = 0`, ""}, {"map", "S => [., .]", ""}, {"map-collapse", `S => \x (x count) % 3`, ""},
 	{"orderby", "S orderby .", ""}, {"orderby-desc", `S orderby \x [x count, x]`, ""}, {"order-fn", `S order \a \b a < b`, ""},
-	{"rank", "R rank (r: .a)", ""}, {"nest", "R nest |b|bs", ""}, {"nest-inv", "R nest ~|a|rest", ""},
+	{"rank", "R rank (r: .a)", ""}, {"rank-ties", "R rank (r: .b)", ""}, {"rank-ties-q", "Q rank (r: .c)", ""}, {"nest", "R nest |b|bs", ""}, {"nest-inv", "R nest ~|a|rest", ""},
 	{"join", "R <&> Q", ""}, {"compose", "R <-> Q", ""}, {"join-lr", "R -&> Q", ""}, {"join-rl", "R <&- Q", ""}, {"join-common", "R -&- Q", ""},
 	{"rel-map", "R => .a", ""}, {"rel-where", "R where .a % 2 = 0", ""}, {"rel-orderby", "R orderby [.a, .b]", ""},
 	{"count", "S count", ""}, {"sum-float", `S sum \x (x count) / 7`, "float-accumulation"}, {"sum-float-rel", "R sum .a / 10 + .b / 3", "float-accumulation"},
@@ -72,7 +72,7 @@ var c07Templates = []c07tmpl{
 	{"seq-concat", "//seq.concat(S orderby . >> \\x [x])", ""}, {"seq-join", `//seq.join(",", S orderby . >> \x //str.repr(x))`, ""},
 	{"power-small", "^{(S orderby .)(0), (S orderby .)(1), (S orderby .)(2)}", ""},
 	{"subset", "[S (<) T, S (<=) (S | T), (S & T) (<=) S, S <: {S}]", ""}, {"eq", "[S = T, (S | T) = (T | S), (S & T) = (T & S)]", ""},
-	{"cond-set", "cond S {{}: 0, _: S count}", ""},
+	{"cond-set", "cond S {{}: 0, _: S count}", ""}, {"cond-set-one", `cond S {{x}: x, _: "many"}`, ""}, {"cond-set-lit-one", `cond (S with 424242) {{424242, x}: x, _: "many"}`, ""},
 	{"set-of-sets", "S => {., 1}", ""}, {"set-flatten", `(S => {.}) => \x (x orderby .)(0)`, ""},
 	{"array-from-set", "(S orderby .) >> \\x {x}", ""}, {"array-index", "(S orderby .)((S count) - 1)", ""},
 	{"single-where", "(S where . = (S orderby .)(0)) single", ""},
